@@ -1138,32 +1138,7 @@ class BooleanExpression(Expression):
         self.expression = expression
 
     def __str__(self) -> str:
-        def _str(expression: Expression, parent_precedence: int) -> str:
-            if isinstance(expression, LogicalAndExpression):
-                precedence = PRECEDENCE_LOGICAL_AND
-                op = "and"
-                left = _str(expression.left, precedence)
-                right = _str(expression.right, precedence)
-            elif isinstance(expression, LogicalOrExpression):
-                precedence = PRECEDENCE_LOGICAL_OR
-                op = "or"
-                left = _str(expression.left, precedence)
-                right = _str(expression.right, precedence)
-            elif isinstance(expression, LogicalNotExpression):
-                operand_str = _str(expression.expression, PRECEDENCE_PREFIX)
-                expr = f"not {operand_str}"
-                if parent_precedence > PRECEDENCE_PREFIX:
-                    return f"({expr})"
-                return expr
-            else:
-                return str(expression)
-
-            expr = f"{left} {op} {right}"
-            if precedence < parent_precedence:
-                return f"({expr})"
-            return expr
-
-        return _str(self.expression, 0)
+        return _boolean_str(self.expression)
 
     def evaluate(self, context: RenderContext) -> object:
         return is_truthy(self.expression.evaluate(context))
@@ -1382,7 +1357,7 @@ class LogicalNotExpression(Expression):
         self.expression = expression
 
     def __str__(self) -> str:
-        return f"not {self.expression}"
+        return _boolean_str(self)
 
     def evaluate(self, context: RenderContext) -> object:
         return not is_truthy(self.expression.evaluate(context))
@@ -1408,7 +1383,7 @@ class LogicalAndExpression(Expression):
         self.right = right
 
     def __str__(self) -> str:
-        return f"{self.left} and {self.right}"
+        return _boolean_str(self)
 
     def evaluate(self, context: RenderContext) -> object:
         return is_truthy(self.left.evaluate(context)) and is_truthy(
@@ -1433,7 +1408,7 @@ class LogicalOrExpression(Expression):
         self.right = right
 
     def __str__(self) -> str:
-        return f"{self.left} or {self.right}"
+        return _boolean_str(self)
 
     def evaluate(self, context: RenderContext) -> object:
         return is_truthy(self.left.evaluate(context)) or is_truthy(
@@ -1458,7 +1433,7 @@ class EqExpression(Expression):
         self.right = right
 
     def __str__(self) -> str:
-        return f"{self.left} == {self.right}"
+        return _boolean_str(self)
 
     def evaluate(self, context: RenderContext) -> object:
         return _eq(self.left.evaluate(context), self.right.evaluate(context))
@@ -1482,7 +1457,7 @@ class NeExpression(Expression):
         self.right = right
 
     def __str__(self) -> str:
-        return f"{self.left} != {self.right}"
+        return _boolean_str(self)
 
     def evaluate(self, context: RenderContext) -> object:
         return not _eq(self.left.evaluate(context), self.right.evaluate(context))
@@ -1506,7 +1481,7 @@ class LeExpression(Expression):
         self.right = right
 
     def __str__(self) -> str:
-        return f"{self.left} <= {self.right}"
+        return _boolean_str(self)
 
     def evaluate(self, context: RenderContext) -> object:
         left = self.left.evaluate(context)
@@ -1531,7 +1506,7 @@ class GeExpression(Expression):
         self.right = right
 
     def __str__(self) -> str:
-        return f"{self.left} >= {self.right}"
+        return _boolean_str(self)
 
     def evaluate(self, context: RenderContext) -> object:
         left = self.left.evaluate(context)
@@ -1556,7 +1531,7 @@ class LtExpression(Expression):
         self.right = right
 
     def __str__(self) -> str:
-        return f"{self.left} < {self.right}"
+        return _boolean_str(self)
 
     def evaluate(self, context: RenderContext) -> object:
         return _lt(
@@ -1583,7 +1558,7 @@ class GtExpression(Expression):
         self.right = right
 
     def __str__(self) -> str:
-        return f"{self.left} > {self.right}"
+        return _boolean_str(self)
 
     def evaluate(self, context: RenderContext) -> object:
         return _lt(
@@ -1610,7 +1585,7 @@ class ContainsExpression(Expression):
         self.right = right
 
     def __str__(self) -> str:
-        return f"{self.left} contains {self.right}"
+        return _boolean_str(self)
 
     def evaluate(self, context: RenderContext) -> object:
         return _contains(
@@ -1637,7 +1612,7 @@ class InExpression(Expression):
         self.right = right
 
     def __str__(self) -> str:
-        return f"{self.left} in {self.right}"
+        return _boolean_str(self)
 
     def evaluate(self, context: RenderContext) -> object:
         return _contains(
@@ -1653,6 +1628,61 @@ class InExpression(Expression):
 
     def children(self) -> list[Expression]:
         return [self.left, self.right]
+
+
+INFIX_OPERATORS: dict[type[Expression], tuple[str, int]] = {
+    LogicalOrExpression: ("or", PRECEDENCE_LOGICAL_OR),
+    LogicalAndExpression: ("and", PRECEDENCE_LOGICAL_AND),
+    EqExpression: ("==", PRECEDENCE_RELATIONAL),
+    NeExpression: ("!=", PRECEDENCE_RELATIONAL),
+    LeExpression: ("<=", PRECEDENCE_RELATIONAL),
+    GeExpression: (">=", PRECEDENCE_RELATIONAL),
+    LtExpression: ("<", PRECEDENCE_RELATIONAL),
+    GtExpression: (">", PRECEDENCE_RELATIONAL),
+    ContainsExpression: ("contains", PRECEDENCE_MEMBERSHIP),
+    InExpression: ("in", PRECEDENCE_MEMBERSHIP),
+}
+
+
+def _boolean_str(expression: Expression) -> str:
+    """Return _expression_ as a string that parses to the same expression tree."""
+    return _boolean_str_in(expression, 0, left=False)[0]
+
+
+def _boolean_str_in(
+    expression: Expression, parent_precedence: int, *, left: bool
+) -> tuple[str, bool]:
+    """Return _expression_ as a string, parenthesized if its parent requires it.
+
+    _left_ says if the expression is the left operand of an infix operator. The
+    second item of the result is true if the string ends with the operand of
+    an open `not`, which extends as far to the right as possible.
+
+    Infix operators of equal precedence are right associative.
+    """
+    if isinstance(expression, LogicalNotExpression):
+        operand, _ = _boolean_str_in(
+            expression.expression, PRECEDENCE_RELATIONAL, left=False
+        )
+        if left:
+            return f"(not {operand})", False
+        return f"not {operand}", True
+
+    operator = INFIX_OPERATORS.get(type(expression))
+    if operator is None:
+        return str(expression), False
+
+    symbol, precedence = operator
+    infix = cast(Any, expression)
+    lhs, _ = _boolean_str_in(infix.left, precedence, left=True)
+    rhs, open_not = _boolean_str_in(infix.right, precedence, left=False)
+    expr = f"{lhs} {symbol} {rhs}"
+
+    if precedence < parent_precedence or (
+        left and (precedence == parent_precedence or open_not)
+    ):
+        return f"({expr})", False
+    return expr, open_not
 
 
 class LoopExpression(Expression):
